@@ -249,9 +249,14 @@ def flags(ctx):
     fin = m.method(roles.PARAMETER, 'finish', inherited=False)
     ctx.analysed(fin)
     ok = False
+    fcfg = CFG(fin.node, m, fin.module)
+    has_const = sides_with_fact(fcfg, lambda a, tv: isinstance(a, ast.Compare) and len(a.ops) == 1 and src(a.left) == 'self.constant'
+                                and isinstance(a.comparators[0], ast.Constant) and a.comparators[0].value is None
+                                and ((tv and isinstance(a.ops[0], ast.IsNot)) or (not tv and isinstance(a.ops[0], ast.Is))))
     for t, v, st in attr_stores(fin.node):
         if t.attr == 'readonly' and isinstance(v, ast.Constant) and v.value is True:
-            if any(isinstance(a, ast.If) and 'self.constant is not None' in src(a.test) for a in ancestors(st)):
+            # the store lies exactly where a test found that a constant is set (either polarity, guard clause or nesting)
+            if set(fcfg.node_of(st)) and set(fcfg.node_of(st)) <= has_const:
                 ok = True
     ctx.check(ok, f'{fin.qualname}:constant forces readonly', fin.node, 'readonly = True when constant is set',
               'a constant parameter is not forced to readonly: the description would promise a refusal that depends on the flag', fin)
@@ -716,3 +721,33 @@ def a_value_that_failed_its_conversion_is_not_cached(ctx):
                           'read reply / update exports a value the described datainfo does not accept', f)
     if not n:
         raise AnchorMissing('the conversion in the cache funnel is not inside a try')
+
+
+@rule('C06.R13', min_instances=1)
+def stored_value_and_default_are_both_refitted(ctx):
+    """Parameter.finish converts what is stored under 'default' AND under 'value' with the current datatype (finish runs
+    again after a subclass narrowed the datatype): each of the two is handled independently - as an item of one loop over both
+    names, or by two tests of which the second is reached whatever the first found.  `elif 'value' in ...` leaves a stored value
+    alone while a default exists; the node then answers reads with a value its own described datainfo refuses"""
+    m = ctx.m
+    fin = m.method(roles.PARAMETER, 'finish', inherited=False)
+    ctx.analysed(fin)
+    cfg = CFG(fin.node, m, fin.module)
+    loops = [l for l in body_walk(fin.node) if isinstance(l, ast.For) and isinstance(l.iter, (ast.Tuple, ast.List))
+             and {e.value for e in l.iter.elts if isinstance(e, ast.Constant)} >= {'default', 'value'}]
+    if loops:
+        ctx.ok(f'{fin.qualname}:default and value are refitted independently', loops[0], f'one loop over {src(loops[0].iter)}', fin)
+        return
+
+    def tests_of(name):
+        return [t for t in cfg.nodes if t.kind == 'test' and not isinstance(t.ast, ast.stmt) and
+                any(isinstance(c, ast.Compare) and isinstance(c.left, ast.Constant) and c.left.value == name and 'propertyValues' in src(c) for c in ast.walk(t.ast))]
+    td, tv_ = tests_of('default'), tests_of('value')
+    if not td or not tv_:
+        ctx.undecided(f'{fin.qualname}:default and value are refitted independently', fin.node, "tests of 'default' / 'value' in self.propertyValues not found", fin)
+        return
+    vids = {t.id for t in tv_}
+    ok = all(vids & set(cfg.reach([t.id], labels={lab}, avoid=[t.id])) for t in td for lab in ('T', 'F'))
+    ctx.check(ok, f'{fin.qualname}:default and value are refitted independently', tv_[0].ast, "the test of 'value' is reached on both sides of the test of 'default'",
+              f"`{src(tv_[0].ast)}` is only reached when no default is stored: a stored value is not converted with the (narrowed) datatype while a default exists - "
+              'it is emitted although the described datainfo does not accept it', fin)
